@@ -28,6 +28,7 @@ type Param struct {
 	Group    string
 	Soft     bool
 	Fields   []Param // PObject
+	Tag      string  // raw struct tag overriding the generated one (bad-input grammars)
 }
 
 type RKind int
@@ -48,6 +49,7 @@ type Result struct {
 	Flatten bool   // field tag (objects only); value is a slice of Type
 	N       int    // number of elements for flatten results
 	Fields  []Result
+	Tag     string // raw struct tag overriding the generated one
 }
 
 // Func is the specification of one user function plus the options it is
@@ -344,10 +346,14 @@ func paramType(p Param) reflect.Type {
 				}
 				tags = append(tags, fmt.Sprintf(`group:"%s"`, g))
 			}
+			tag := strings.Join(tags, " ")
+			if q.Tag != "" {
+				tag = q.Tag
+			}
 			fields = append(fields, reflect.StructField{
 				Name: fmt.Sprintf("F%d", i),
 				Type: paramType(q),
-				Tag:  reflect.StructTag(strings.Join(tags, " ")),
+				Tag:  reflect.StructTag(tag),
 			})
 		}
 		return reflect.StructOf(fields)
@@ -378,10 +384,14 @@ func resultType(r Result) reflect.Type {
 				}
 				tags = append(tags, fmt.Sprintf(`group:"%s"`, g))
 			}
+			tag := strings.Join(tags, " ")
+			if q.Tag != "" {
+				tag = q.Tag
+			}
 			fields = append(fields, reflect.StructField{
 				Name: fmt.Sprintf("F%d", i),
 				Type: resultType(q),
-				Tag:  reflect.StructTag(strings.Join(tags, " ")),
+				Tag:  reflect.StructTag(tag),
 			})
 		}
 		return reflect.StructOf(fields)
